@@ -36,7 +36,7 @@ NoLink(p) == \A k \in 1..Len(p) : ~IsLink(SubSeq(p, 1, k))   \* script disciplin
 Mut(p) == ~it.open /\ ~(fh.open /\ IsPrefix(p, fh.p))       \* script discipline (see above)
 B(b) == IF b THEN 1 ELSE 0
 
-Entry(q) == [null |-> 0, p |-> q, t |-> IF IsDir(q) THEN 4 ELSE IF IsLink(q) THEN 2 ELSE 1,
+Entry(q) == [null |-> 0, p |-> q, pabs |-> 1, t |-> IF IsDir(q) THEN 4 ELSE IF IsLink(q) THEN 2 ELSE 1,
              sz |-> IF IsFile(q) THEN files[q].n ELSE 0, rel |-> q, relabs |-> 0]
 NullEntry == [null |-> 1]
 RECURSIVE PostOrder(_)
@@ -80,7 +80,7 @@ MCIterNew == /\ GH /\ \E p \in {x \in AllPaths : NoLink(x)}, ok \in BOOLEAN :
                     /\ p # Root => Near(p)
                     /\ \E cur \in {Entry(q) : q \in Children(p)} \cup {NullEntry} : IterNew(p, "r", ok, cur)
                     /\ Rec(Op("ITNEW", p, Root, 0, 0, ""))
-ItCands == {[null |-> 0, p |-> q, t |-> IF it.kinds[q] = -1 THEN 4 ELSE IF it.kinds[q] = -2 THEN 2 ELSE 1, sz |-> IF it.kinds[q] < 0 THEN 0 ELSE it.kinds[q],
+ItCands == {[null |-> 0, p |-> q, pabs |-> 1, t |-> IF it.kinds[q] = -1 THEN 4 ELSE IF it.kinds[q] = -2 THEN 2 ELSE 1, sz |-> IF it.kinds[q] < 0 THEN 0 ELSE it.kinds[q],
              rel |-> q, relabs |-> 0] : q \in DOMAIN it.kinds} \cup {NullEntry}
 MCIterNext == /\ GH /\ it.open /\ \E ok \in BOOLEAN, cur \in ItCands : IterNext(ok, IF ok THEN "" ELSE "AWS_ERROR_LIST_EMPTY", cur)
               /\ Rec(Op("ITNEXT", Root, Root, 0, 0, ""))
